@@ -1016,20 +1016,30 @@ func (dsc *dataStoreCommand) dbSize() respInt {
 	dsc.lock()
 	defer dsc.unlock()
 
-	return respInt(dsc.ds.data.count)
+	return respInt(dsc.liveCountUnlocked())
+}
+
+// expired keys stay in the table until something replaces them, but they do not count
+func (dsc *dataStoreCommand) liveCountUnlocked() (count int) {
+	for _, item := range dsc.ds.data.buckets {
+		if item != nil && !item.value.(*storeKey).isExpiredUnlocked() {
+			count++
+		}
+	}
+	return
 }
 
 func (dsc *dataStoreCommand) randomKey() (output respValue) {
 	dsc.lock()
 	defer dsc.unlock()
 
-	if dsc.ds.data.count > 0 {
+	if dsc.liveCountUnlocked() > 0 {
 		l := len(dsc.ds.data.buckets)
 		n := rand.Intn(l)
 
 		for {
 			item := dsc.ds.data.buckets[n]
-			if item != nil {
+			if item != nil && !item.value.(*storeKey).isExpiredUnlocked() {
 				output.data = respBulkString(item.key)
 				return
 			}
